@@ -3,6 +3,7 @@
 package app
 
 import (
+	"sync"
 	"strconv"
 	"bytes"
 	"encoding/base64"
@@ -303,7 +304,7 @@ func genC18Case() *rapid.Generator[C18Case] {
 				c.New.Slots[i].MaxBody = 4 - c.New.Slots[i].MaxBody
 			}
 		}
-		c.Mode = rapid.SampledFrom([]string{"pause", "pause", "body-read", "body-read", "failed", "pull-in-flight", "publish-in-flight"}).Draw(t, "mode")
+		c.Mode = rapid.SampledFrom([]string{"pause", "pause", "body-read", "body-read", "failed", "pull-in-flight", "publish-in-flight", "publish-3-party"}).Draw(t, "mode")
 		c.Pause = rapid.SampledFrom([]string{"state.write-unlocked", "state.write-unlocked", "reload.after-loadauth", "reload.after-updateall"}).Draw(t, "pause")
 		c.Warm = rapid.Bool().Draw(t, "warm")
 		c.Fail = rapid.SampledFrom([]string{"removed", "directory", "garbage", "uncompilable", "secret-missing", "secret-missing-adaptive", "secret-missing-ratelimit", "restart-listen", "restart-max-body", "restart-prefix", "truncated", "restart-pair", "restart-pair"}).Draw(t, "fail")
@@ -651,6 +652,135 @@ func runC18(c C18Case, tolerate bool) *fOutcome {
 						return out
 					}
 					out.Failure = f
+					return out
+				}
+			}
+		}
+		return out
+
+	case "publish-3-party":
+		// three parties at the configuration gate: publish A is between its two items (it holds the gate), a reload
+		// queues behind A, publish B arrives exactly then. B must be served entirely under the old or entirely under
+		// the new configuration - whether it waits behind the queued reload or not. (Seed C18-15 let B run without
+		// the gate when it could not get it at once: first item under the old, second under the new configuration.)
+		if err := os.WriteFile(w.cfgPath, []byte(newText), 0o600); err != nil {
+			out.Failure = ffail("HARNESS", "write", 0, "%v", err)
+			return out
+		}
+		mkReq := func(tag string, i, j int, tok string) (FReq, [2]string) {
+			ids := [2]string{fmt.Sprintf("p3-%s-0", tag), fmt.Sprintf("p3-%s-1", tag)}
+			items := []map[string]any{
+				{"id": ids[0], "route": slotPaths[i], "target": "pull", "payload_b64": "eA=="},
+				{"id": ids[1], "route": slotPaths[j], "target": "pull", "payload_b64": "eQ=="},
+			}
+			body, _ := json.Marshal(map[string]any{"items": items})
+			r := FReq{Method: "POST", Path: "/messages/publish", Host: "a", Remote: "127.0.0.1:1", Body: body,
+				Headers: [][2]string{{"Content-Type", "application/json"}, {"X-Hookaido-Audit-Reason", "verif"}}}
+			if tok != "" {
+				r.Headers = append(r.Headers, [2]string{"Authorization", "Bearer " + tok})
+			}
+			return r, ids
+		}
+		answer := func(rw *frontWorld, code int, ids [2]string) string {
+			n := 0
+			if msgs, err := rw.dump(); err == nil {
+				for _, m := range msgs {
+					if m.ID == ids[0] || m.ID == ids[1] {
+						n++
+					}
+				}
+			}
+			return fmt.Sprintf("%d stored=%d", code, n)
+		}
+		for i := range slotPaths {
+			for j := range slotPaths {
+				if i == j {
+					continue
+				}
+				tag := fmt.Sprintf("%d%d", i, j)
+				reqB, idsB := mkReq("b"+tag, i, j, c.Old.Admin)
+				vOld := answer(refOld, serve(refOld.adminH, reqB).Code, idsB)
+				vNew := answer(refNew, serve(refNew.adminH, reqB).Code, idsB)
+				if vOld != vNew {
+					out.NonTriv = true
+					out.Labels["configs-differ-in-battery"] = true
+				}
+				wi := mkWorld(oldText)
+				if wi == nil {
+					return out
+				}
+				_ = os.WriteFile(wi.cfgPath, []byte(newText), 0o600)
+				reqA, _ := mkReq("a"+tag, i, j, c.Old.Admin)
+				var mu sync.Mutex
+				hits := 0
+				var once sync.Once
+				bAt2, reloaded, bDone := make(chan struct{}), make(chan struct{}), make(chan int, 1)
+				started := false
+				verifhook.On("admin.publish.item", func() {
+					mu.Lock()
+					hits++
+					h := hits
+					mu.Unlock()
+					switch h {
+					case 2: // A between its items, holding the gate
+						started = true
+						go func() { wi.reload(); close(reloaded) }()
+						time.Sleep(30 * time.Millisecond) // the reload is now queued behind A (or has already landed)
+						go func() { bDone <- serve(wi.adminH, reqB).Code }()
+						select {
+						case <-bAt2:
+							out.Labels["b-between-its-items-while-reload-queued"] = true
+						case <-time.After(60 * time.Millisecond):
+						}
+					case 4: // B between its items
+						once.Do(func() { close(bAt2) })
+						select {
+						case <-reloaded:
+						case <-time.After(2 * time.Second):
+						}
+					}
+				})
+				_ = serve(wi.adminH, reqA)
+				codeB := -1
+				if started {
+					select {
+					case <-reloaded:
+					case <-time.After(10 * time.Second):
+					}
+					select {
+					case codeB = <-bDone:
+					case <-time.After(10 * time.Second):
+					}
+				}
+				verifhook.On("admin.publish.item", nil)
+				if !started {
+					wi.close()
+					out.Labels["reload-not-reached-in-request"] = true
+					continue
+				}
+				if codeB < 0 {
+					wi.close()
+					out.Skipped = "publish B did not finish within 10s"
+					out.Labels["inconclusive-time-budget"] = true
+					return out
+				}
+				ansB := answer(wi, codeB, idsB)
+				wi.close()
+				out.Labels["three-parties-at-the-gate"] = true
+				if ansB != vOld && ansB != vNew {
+					f3 := ffail("C18,C15", "request-mixed-configuration", i*3+j, "publish B (routes %s, %s) arrived while publish A held the configuration gate and a reload was queued behind A; B answers %q; entirely-old answers %q, entirely-new answers %q\nold:\n%s\nnew:\n%s", slotPaths[i], slotPaths[j], ansB, vOld, vNew, oldText, newText)
+					// known finding 25: Admin requests are authorized (one read of the runtime state) before the
+					// publish handler takes the configuration gate; a request that waits at the gate behind a queued
+					// reload is authorized under the old and validated under the new configuration. Signature: the
+					// reload changes who is authorized (entirely-new refuses the caller with 401).
+					if strings.HasPrefix(vNew, "401") {
+						f3.Sig = "publish-authorized-before-config-gate"
+						if tolerate && verifkit.Known(f3.Sig) {
+							out.Known = append(out.Known, f3.Sig)
+							return out
+						}
+					}
+					out.Failure = f3
 					return out
 				}
 			}
